@@ -1,2 +1,101 @@
-(* C01 — placeholder while the model is validated; theorems follow *)
-From QV.Model Require Import Base Matrix Convert Reduce.
+(* C01 — degree reduction never undercuts the model and is exact on consistent ancillas.
+   Statements only; proofs in Proofs/ReduceProofs.v.
+
+   reduce_degree m out deg l pairs  is PUBO._reduce_degree: the model m (labels mapped to 0..n-1 through m.mapping), the
+   class of the result, the requested degree, the penalty setting (default 1+|v|, a constant, or a function of the
+   coefficient) and the `pairs` hint.  to_qubo / to_pubo are this function; to_quso / to_puso convert its result; the
+   PUSO / PCSO methods first build the boolean form with the spin model's own mapping (_create_pubo).
+
+     pull (mp m) s     : convert_solution -- the assignment of M's labels read off an assignment s of D's integers
+     wfl n red         : the substitutions (x, y) -> z made by the run: every ancilla z is >= n, larger than the two labels
+                         it stands for, and they are numbered in increasing order
+     cons_red s red    : s sets every ancilla to the product it stands for *)
+From QV.Model Require Import Base Matrix Arith Convert Reduce.
+From QV.Proofs Require Import BaseProofs KeyProofs ArithProofs InvProofs ConvertProofs PenaltyArith ReduceProofs.
+Open Scope Q_scope.
+
+(* everything at once, for any penalty setting and any pairs hint *)
+Theorem C01_core : forall m out deg l pairs D,
+  reduce_degree m out deg l pairs = Ok D -> bmat out -> mp_range m ->
+  exists ms red,
+    mapped_self (mp m) (tm m) = Ok ms /\ kd D = out /\ wfl (num_vars m) red /\
+    (forall s, boolean_env s -> cons_red s red -> eval s (tm D) == eval (pull (mp m) s) (tm m)) /\
+    (forall s, boolean_env s -> (forall k v, In (k, v) ms -> Qabs v <= lam_fun l v) ->
+       eval (pull (mp m) s) (tm m) <= eval s (tm D)) /\
+    ((2 <= req_deg m deg)%nat -> keys_le (req_deg m deg) (tm D)).
+Proof. exact reduce_degree_spec. Qed.
+Print Assumptions C01_core.
+
+(* every assignment x of M has an extension s over D's variables with D(s) = M(x), whatever the penalty *)
+Theorem C01_extension : forall m out deg l pairs D,
+  reduce_degree m out deg l pairs = Ok D -> bmat out -> Inv m -> is_labelled (kd m) = true ->
+  forall x, boolean_env x ->
+  exists s, boolean_env s /\ (forall l0 n, mp_get l0 (mp m) = Some n -> s n == x l0) /\ eval s (tm D) == eval x (tm m).
+Proof. exact reduce_extension. Qed.
+Print Assumptions C01_extension.
+
+(* with a penalty >= |coefficient| of every reduced term, D(s) >= M(convert_solution(s)) at EVERY s, consistent or not *)
+Theorem C01_lower : forall m out deg l pairs D,
+  reduce_degree m out deg l pairs = Ok D -> bmat out -> mp_range m ->
+  (forall ms, mapped_self (mp m) (tm m) = Ok ms -> forall k v, In (k, v) ms -> Qabs v <= lam_fun l v) ->
+  forall s, boolean_env s -> eval (pull (mp m) s) (tm m) <= eval s (tm D).
+Proof. exact reduce_lower. Qed.
+Print Assumptions C01_lower.
+Theorem C01_lower_default : forall m out deg pairs D,
+  reduce_degree m out deg LDefault pairs = Ok D -> bmat out -> mp_range m ->
+  forall s, boolean_env s -> eval (pull (mp m) s) (tm m) <= eval s (tm D).
+Proof. exact reduce_lower_default. Qed.
+Print Assumptions C01_lower_default.
+
+(* same minimum, and every minimiser of D converts to a minimiser of M *)
+Theorem C01_minimiser : forall m out deg l pairs D,
+  reduce_degree m out deg l pairs = Ok D -> bmat out -> Inv m -> is_labelled (kd m) = true ->
+  (forall ms, mapped_self (mp m) (tm m) = Ok ms -> forall k v, In (k, v) ms -> Qabs v <= lam_fun l v) ->
+  forall s, boolean_env s -> (forall s', boolean_env s' -> eval s (tm D) <= eval s' (tm D)) ->
+  let x := pull (mp m) s in
+  eval x (tm m) == eval s (tm D) /\ forall x', boolean_env x' -> eval x (tm m) <= eval x' (tm m).
+Proof. exact reduce_minimiser. Qed.
+Print Assumptions C01_minimiser.
+
+(* degree of the produced form *)
+Theorem C01_degree : forall m out deg l pairs D,
+  reduce_degree m out deg l pairs = Ok D -> bmat out -> mp_range m -> (2 <= req_deg m deg)%nat -> keys_le (req_deg m deg) (tm D).
+Proof. exact reduce_degree_bound. Qed.
+Print Assumptions C01_degree.
+
+(* to_quso / to_puso are the boolean reduced form under 0 <-> +1, 1 <-> -1 *)
+Theorem C01_to_quso : forall m l pairs L, pubo_to_quso m l pairs = Ok L ->
+  exists Q, pubo_to_qubo m l pairs = Ok Q /\ forall z, spin_env z -> eval z (tm L) == eval (s2b z) (tm Q).
+Proof. exact pubo_to_quso_value. Qed.
+Print Assumptions C01_to_quso.
+Theorem C01_to_puso : forall m deg l pairs S, pubo_to_puso_m m deg l pairs = Ok S ->
+  exists P, pubo_to_pubo m deg l pairs = Ok P /\ forall z, spin_env z -> eval z (tm S) == eval (s2b z) (tm P).
+Proof. exact pubo_to_puso_value. Qed.
+Print Assumptions C01_to_puso.
+
+(* spin models: _create_pubo keeps the spin model's mapping, so the same two statements hold against the spin function *)
+Theorem C01_spin_extension : forall m out deg l pairs P D,
+  create_pubo m = Ok P -> reduce_degree P out deg l pairs = Ok D -> bmat out -> Inv m -> is_labelled (kd m) = true ->
+  forall z, spin_env z ->
+  exists s, boolean_env s /\ (forall l0 n, mp_get l0 (mp m) = Some n -> s n == s2b z l0) /\ eval s (tm D) == eval z (tm m).
+Proof. exact spin_reduce_extension. Qed.
+Print Assumptions C01_spin_extension.
+Theorem C01_spin_lower : forall m out deg l pairs P D,
+  create_pubo m = Ok P -> reduce_degree P out deg l pairs = Ok D -> bmat out -> Inv m -> is_labelled (kd m) = true ->
+  (forall ms, mapped_self (mp P) (tm P) = Ok ms -> forall k v, In (k, v) ms -> Qabs v <= lam_fun l v) ->
+  forall s, boolean_env s -> eval (b2s (pull (mp m) s)) (tm m) <= eval s (tm D).
+Proof. exact spin_reduce_lower. Qed.
+Print Assumptions C01_spin_lower.
+
+(* the inequality every substitution step rests on: replacing b*c by the ancilla a in a term v*b*c*R costs at most the gadget *)
+Theorem C01_step : forall a b c R v lam, is_bool a -> is_bool b -> is_bool c -> is_bool R -> Qabs v <= lam ->
+  v * (b * c * R) <= v * (a * R) + lam * (3 * a + b * c - 2 * b * a - 2 * c * a).
+Proof. exact step_ineq. Qed.
+Print Assumptions C01_step.
+
+(* non-vacuity: x0 x1 x2 - 2 x0 x1 x3 to_qubo: one ancilla (label 4) shared by both terms, degree 2 *)
+Example C01_example :
+  exists m D, m_create KPubo [([0; 1; 2]%nat, 1); ([0; 1; 3]%nat, -(2))] = Ok m /\ pubo_to_qubo m LDefault [] = Ok D
+    /\ kd D = KQuboM /\ forallb (fun '(k, _) => (length k <=? 2)%nat) (tm D) = true
+    /\ existsb (fun '(k, _) => existsb (Nat.eqb 4) k) (tm D) = true.
+Proof. eexists. eexists. vm_compute. repeat split. Qed.
